@@ -186,6 +186,20 @@ def verify_rt(contract, cfg, both=False):
                     except Exception as e:
                         d['replay'] = {'reproduced': None, 'reason': f'replay crashed: {type(e).__name__}: {e}'}
             res['verdicts'].append(d)
+        # failed VCs without a natively reproduced counter-model: look for a concrete failing input with the
+        # bounded native stand-in (all small inputs) and attach it as the replay
+        failed = [d for d in res['verdicts'] if d['verdict'] == 'sat' and not (d.get('replay') or {}).get('reproduced')]
+        b = getattr(contract, 'bounded', None)
+        if failed and b is not None:
+            try:
+                bad, tried, bound = b(cx)
+            except Exception as e2:
+                bad, tried, bound = [], 0, f'bounded stand-in crashed: {type(e2).__name__}: {e2}'
+            res['bounded'] = {'tried': tried, 'bound': bound, 'violations': len(bad)}
+            if bad:
+                for d in failed:
+                    d['replay'] = {'reproduced': True, 'violated': bad[:3], 'bound': bound, 'tried': tried,
+                                   'how': 'concrete failing input found by evaluating the contract natively on all small inputs'}
     except OutOfSubset as e:
         res['error'] = ('out-of-subset', str(e))
         # the function left the verifier's subset: a BOUNDED stand-in (the contract evaluated natively on all small
